@@ -1,7 +1,7 @@
 """C18 — generated XML, XHTML and SVG are well-formed and carry the data unchanged
 (util/XmlWrite.py, RP66V1/IndexXML.py, RP66V1/ScanHTML.py, LIS/LisToHtml.py, LAS/LASToHTML.py, util/plot/SVGWriter.py,
 common/Rle.py)."""
-import ast, io, json, os, re
+import ast, io, json, math, os, re, struct, sys
 
 CLAIM = {
  'text': ('Lean 4 theorems about a model of XmlStream/XhtmlStream/Element and an XML 1.0 recogniser/decoder: '
@@ -13,7 +13,7 @@ CLAIM = {
           'attribute values and that text), stream_decodes (whole trees: the decoder reports exactly the events the calls asked for, '
           'the only admissible difference being newline+spaces immediately before a tag outside mixed content), comment_wellformed (whatever string is passed to comment(), the comment written '
           'is legal), encode_illegal_ref (negation witness for the known finding F13-xml-illegal-char-reference), '
-          'rle_xml_roundtrip (the datum/stride/repeat attributes of xml_rle_write expand '
+          'rle_float_expand_within (float X axis over exact rationals with isclose(rel_tol=tol): count exact, every expanded value within tol*max(|x|,|y|) of the value added; partial: rounding not modelled), rle_xml_roundtrip (the datum/stride/repeat attributes of xml_rle_write expand '
           'to the integer list that was run-length encoded). Proof is the right level for the writer core: the claim is '
           'about all strings and all nestings. The large producers (RP66V1 XML index, ScanHTML, LASToHTML, LisToHtml, SVG) '
           'are exercised end to end with an oracle only: partial.'),
@@ -25,6 +25,7 @@ CLAIM = {
  'design_ref': 'DESIGN.md section 6 C18',
 }
 
+EXTRA_LEAN_TARGETS = ('drv_c04',)     # the C03/C04 specification encoder builds the indexed RP66V1 files of the rlefile stream
 ANCHOR_FILES = ['src/TotalDepth/util/XmlWrite.py', 'src/TotalDepth/RP66V1/IndexXML.py', 'src/TotalDepth/common/Rle.py']
 
 RULE = ('xmlenc: every single code point in U+0000..U+02FF plus all Char-production boundaries, plus random strings mixed '
@@ -33,7 +34,10 @@ RULE = ('xmlenc: every single code point in U+0000..U+02FF plus all Char-product
         'attributes, characters/literal/comment/pI/xmlSpacePreserve/charactersWithBr calls, elements left open for '
         '__exit__, on XmlStream and XhtmlStream, plus flat call sequences with wrong/missing endElement for the error '
         'branches; xmlwf: single-character edits of generated documents; rle: exhaustive small integer lists + random '
-        'lists with runs written through xml_rle_write; producers: see harness/gen/c18_producers.py. A case is '
+        'lists with runs written through xml_rle_write; rlefloat: FLOAT sequences (exact and accumulated grids, near-regular '
+        'with deviations spread over 1e-17..1e-6 relative, time-like, depth-like, equal runs, random; float64 and float32) '
+        'through create_rle + xml_rle_write, read back and expanded; rlefile: generated RP66V1 files (C03/C04 specification '
+        'encoder) with FDOUBL/FSINGL X channels indexed and written by write_logical_file_sequence_to_xml; producers: see harness/gen/c18_producers.py. A case is '
         'non-trivial when it contains at least one character needing escaping (xmlenc), at least two nested elements and '
         'one escaped string (xmlrun), or at least one run of length >= 3 (rle); distinct by content.')
 ASSUMPTIONS = [
@@ -42,7 +46,7 @@ ASSUMPTIONS = [
  'stream_wellformed assumes the calls form exactly one document element (XML requires it), that literal() text is plain character data and that a pI() string is an ASCII target optionally followed by one blank and data',
  'indentation: in an element without character data the writer inserts newline+spaces before tags; this whitespace is accepted as not being data; inside an element that has character data nothing may be inserted (checked)',
  'lone surrogates cannot be Lean characters: they are covered by the oracle only',
- 'RLE theorem: integer values (frame numbers, positions); float X axes are compared by the end-to-end oracle only',
+ 'RLE theorems: integer values (frame numbers, positions) exactly; float X axes over exact rationals (rle_float_expand_within); on the real code "exactly the X values" is read as: count exact and every expanded value within 4*eps*max|x| of the indexed X (closed form; (2k+4)*eps*max|x| for the k-th repeated addition), eps = 2**-52 for float64 and 2**-23 (computed in float32) for float32 X channels - the rounding of the stride subtraction and of datum + i*stride, the same bound C16 uses',
 ]
 TRUSTED = ['modelled, not verified: str.encode("ascii","xmlcharrefreplace"), f"{n:03d}", sorted() on str keys, dict key uniqueness, io.StringIO.write',
            'lxml/libxml2 and expat as the reference XML parsers of the oracle']
@@ -753,6 +757,277 @@ def run_rle(ctx):
     ctx.count('rle_cases', len(allc))
 
 
+# ------------------------------------------------------------------ stream 4: FLOAT run-length entries (X axis)
+
+EPS = sys.float_info.epsilon
+EPS32 = 2.0 ** -23
+
+
+def _hexf(xs):
+    return [float(x).hex() for x in xs]
+
+
+def gen_float_seq(rng):
+    """(kind, [float]) : exact grids, accumulated grids, near-regular sequences whose deviations are spread over
+    1e-17 .. 1e-6 relative to the magnitude, time-like, depth-like, runs of equal values, random."""
+    n = rng.choice([3, 4, 5, 8, 12, 20, rng.randint(3, 60)])
+    kind = rng.choice(['grid', 'accum', 'near', 'near', 'near', 'time', 'depth', 'equal', 'random'])
+    if kind == 'random':
+        return kind, [rng.uniform(-1e6, 1e6) * 10 ** rng.randint(-6, 3) for _ in range(n)]
+    if kind == 'equal':
+        xs = []
+        while len(xs) < n:
+            xs += [rng.choice([0.0, 1.5, -2.25, rng.uniform(-1e3, 1e3)])] * rng.randint(1, 6)
+        return kind, xs[:n]
+    if kind == 'time':
+        base = float(rng.randint(9 * 10**8, 2 * 10**9)) + rng.choice([0.0, 0.5, 0.123, 0.001])
+        st = rng.choice([0.5, 1.0, 0.25, 10.0, 0.1, 60.0])
+        devs = [0.25, 0.1, 1e-3, 1e-4, 1e-6, 2.5e-7]
+    elif kind == 'depth':
+        base = rng.choice([0.0, 1000.0, 2500.5, rng.uniform(10, 9000)])
+        st = rng.choice([0.1524, -0.1524, 0.5, -0.5, 0.1, 0.25, 1.0 / 3, 6.0 * 0.0254])
+        devs = [1e-6, 1e-9, 1e-4, 1e-7, 1e-11, 1e-12]
+    else:
+        base = rng.choice([0.0, 1.0, -3.5, 1000.25, 1e9, rng.uniform(-1e4, 1e4), rng.uniform(-1e-3, 1e-3), rng.uniform(1e5, 1e12)])
+        st = rng.choice([0.5, -0.5, 0.1, -0.1, 0.25, 1.0 / 3, 0.1524, 75197.0, rng.uniform(-10, 10), rng.uniform(-1e-6, 1e-6),
+                         abs(base) * rng.choice([1e-3, 1e-6, 0.07]) or 1.0])
+        devs = None
+    if kind == 'accum':
+        xs = [base]
+        for _ in range(n - 1):
+            xs.append(xs[-1] + st)
+        return kind, xs
+    xs = [base + k * st for k in range(n)]
+    if kind == 'grid':
+        return kind, xs
+    big = max(abs(xs[0]), abs(xs[-1]), 1e-300)
+    for _ in range(rng.choice([1, 1, 2, 3])):
+        k = rng.randrange(2, n) if n > 2 else n - 1       # from the third value on a run exists that could absorb it
+        d = rng.choice(devs) if devs is not None else big * 10 ** rng.uniform(-17, -6)
+        xs[k] = xs[k] + rng.choice([-1, 1]) * d
+    return kind, xs
+
+
+def _rle_float_doc(vals):
+    """Rle.create_rle + IndexXML.xml_rle_write on the real code; returns (rle, document text)"""
+    from TotalDepth.common import Rle
+    from TotalDepth.RP66V1 import IndexXML
+    X = _X()
+    rle = Rle.create_rle(vals)
+    f = io.StringIO()
+    with X.XmlStream(f) as s:
+        IndexXML.xml_rle_write(rle, 'Xaxis', s, False)
+    return rle, f.getvalue()
+
+
+def check_float_expansion(elem, want, f32=False):
+    """Reader side, independent of Rle.py: the <RLE datum stride repeat/> children of `elem` expanded by the closed form
+    datum + i*stride and by repeated addition must give back `want` (Python floats; float32 values when f32):
+    count exact, every value within 4*eps*max|x| (closed form) / (2k+4)*eps*max|x| (k-th repeated addition) —
+    the rounding of the two or three float operations involved; float32 data are expanded in float32, with the float32 epsilon."""
+    import numpy as np
+    closed, it = [], []
+    for r in elem:
+        d, st, rp = float(r.get('datum')), float(r.get('stride')), int(r.get('repeat'))
+        if f32:
+            d, st = np.float32(d), np.float32(st)
+            closed += [float(d + st * np.float32(i)) for i in range(rp + 1)]
+            v = d
+            it.append((0, float(v)))
+            for k in range(rp):
+                v = v + st
+                it.append((k + 1, float(v)))
+        else:
+            closed += [d + st * i for i in range(rp + 1)]
+            v = d
+            it.append((0, v))
+            for k in range(rp):
+                v += st
+                it.append((k + 1, v))
+    if len(closed) != len(want):
+        return f'entries expand to {len(closed)} values, {len(want)} were indexed'
+    if elem.get('count') is not None and (int(elem.get('count')) != len(want) or int(elem.get('rle_len')) != len(elem)):
+        return f'count/rle_len attributes {elem.get("count")}/{elem.get("rle_len")} for {len(want)} values in {len(elem)} entries'
+    m = max((abs(x) for x in want), default=0.0)
+    for i, x in enumerate(want):
+        if f32:
+            # float32 data take the exact-equality branch of RLEItem.add; what remains is the rounding of the stride
+            # (v - datum) and of datum + stride*i in float32: the same allowance, with the float32 epsilon
+            if not abs(closed[i] - x) <= 4 * EPS32 * m or not abs(it[i][1] - x) <= (2 * it[i][0] + 4) * EPS32 * m:
+                return (f'value {i}: entries expand to {closed[i]!r} / {it[i][1]!r} (float32), indexed X is {x!r} '
+                        f'(bound 4*eps32*max|x| = {4 * EPS32 * m!r})')
+            continue
+        if not abs(closed[i] - x) <= 4 * EPS * m:
+            return (f'value {i}: entries expand to {closed[i]!r}, indexed X is {x!r}: off by {abs(closed[i] - x):.3e} '
+                    f'= {abs(closed[i] - x) / m if m else 0:.2e} relative (bound 4*eps = {4 * EPS:.2e})')
+        k, v = it[i]
+        if not abs(v - x) <= (2 * k + 4) * EPS * m:
+            return f'value {i}: repeated addition gives {v!r}, indexed X is {x!r} (bound {(2 * k + 4)}*eps*max|x|)'
+    return None
+
+
+def oracle_rle_float(ctx, xs, f32=False):
+    from gen import c18_xmlcheck as xc
+    import numpy as np
+    ctx.count('oracle_cases')
+    case = {'op': 'rlefloat', 'xs': _hexf(xs), 'f32': f32}
+    vals = [np.float32(x) for x in xs] if f32 else list(xs)
+    want = [float(v) for v in vals]
+    rle, doc = _rle_float_doc(vals)
+    res = xc.parse_both(doc)
+    if not res['ok']:
+        ctx.fail(case, f'float RLE document not well-formed: {res["lxml_err"]}'); return False
+    try:
+        bad = check_float_expansion(res['lxml_root'], want, f32)
+    except ValueError as e:
+        bad = f'RLE attribute is not a number: {e}'
+    if bad:
+        ctx.fail(case, 'Xaxis ' + bad); return False
+    if any(int(r.get('repeat')) >= 2 for r in res['lxml_root']):
+        ctx.nontriv(('rlefloat', f32, tuple(case['xs'])))
+    return True
+
+
+def run_rle_float(ctx):
+    rng = ctx.rng
+    seqs = []
+    for _ in range(ctx.n(6000, 60000)):
+        seqs.append(gen_float_seq(rng))
+    # the two situations named in the report of the missed change, verbatim
+    seqs.append(('time', [1.6e9 + 0.5 * k for k in range(4)] + [1.6e9 + 2.25] + [1.6e9 + 0.5 * k for k in range(5, 8)]))
+    seqs.append(('depth', [1000.0 + 0.1524 * k for k in range(5)] + [1000.0 + 0.1524 * 5 + 1e-6] + [1000.0 + 0.1524 * k for k in range(6, 9)]))
+    for r in (1e-16, 2.3e-16, 1e-15, 1e-14, 1e-13, 1e-12, 1e-11, 1e-10, 9e-10, 1e-9, 1e-8, 1e-7, 1e-6):
+        seqs.append(('near', [100.0 + k for k in range(6)] + [106.0 * (1 + r)] + [107.0, 108.0]))
+    for kind, xs in seqs:
+        ctx.count('rlefloat_' + kind)
+        oracle_rle_float(ctx, xs, False)
+        if rng.random() < 0.25:
+            oracle_rle_float(ctx, xs, True)
+    ctx.sample({'op': 'rlefloat', 'xs': seqs[-14][1], 'doc': _rle_float_doc(seqs[-14][1])[1]})
+    ctx.count('rlefloat_cases', len(seqs))
+
+
+# ------------------------------------------------------------------ stream 5: whole generated RP66V1 files -> XML index
+
+def _bits(rc, x):
+    return int.from_bytes(struct.pack('>d' if rc == 7 else '>f', x), 'big')
+
+
+def gen_index_file(rng):
+    """A small log pass whose X channel (first channel of each frame type) is FDOUBL (7) or FSINGL (2), with generated
+    X sequences and frame numbers; the other channels are arbitrary numeric.  -> (lp, frames, want) with
+    want[ft] = {'x': [float], 'no': [int], 'rc': 7|2}"""
+    from props import c04
+    lp, want = [], {}
+    nft = rng.choice([1, 1, 2])
+    for k in range(nft):
+        rcx = rng.choice([7, 7, 7, 2])
+        chans = [{'ident': b'X%d' % k, 'rc': rcx, 'dims': [1]}]
+        for j in range(rng.choice([0, 1, 2])):
+            chans.append({'ident': b'C%d%d' % (k, j), 'rc': rng.choice([2, 7, 12, 13, 14, 15, 16, 17]), 'dims': rng.choice([[1], [2], [3]])})
+        lp.append({'name': [rng.choice([0, 1, 300]), rng.randint(0, 2), b'FR%d' % k], 'chans': chans})
+        _kind, xs = gen_float_seq(rng)
+        if rcx == 2:
+            xs = [struct.unpack('>f', struct.pack('>f', max(-3e38, min(3e38, x))))[0] for x in xs]
+        no, nos = rng.choice([1, 1, 1, 7]), []
+        for _ in xs:
+            nos.append(no)
+            no += rng.choice([1, 1, 1, 1, 1, 2]) if rng.random() < 0.9 else rng.randint(1, 50)
+        want[k] = {'x': xs, 'no': nos, 'rc': rcx}
+    order = [k for k in range(nft) for _ in want[k]['x']]
+    if rng.random() < 0.6:
+        rng.shuffle(order)
+    frames, ptr = [], [0] * nft
+    for k in order:
+        i = ptr[k]; ptr[k] += 1
+        vals = [[_bits(want[k]['rc'], want[k]['x'][i])]]
+        for ch in lp[k]['chans'][1:]:
+            vals.append([c04.gen_value(rng, ch['rc']) for _ in range(c04.count_of(ch))])
+        frames.append({'ft': k, 'no': want[k]['no'][i], 'vals': vals})
+    return lp, frames, want
+
+
+def oracle_index_file(ctx, lp, frames, recs, want):
+    """Index the generated file with the real code, write the XML index, read it back: one FrameArray per frame type;
+    FrameNumbers and LRSH expand exactly to the generated frame numbers / the indexed positions, Xaxis to the generated X
+    values (tight float bound, see check_float_expansion)."""
+    import logging
+    from gen import c18_xmlcheck as xc, c03phys
+    from TotalDepth.RP66V1 import IndexXML
+    from TotalDepth.RP66V1.core import LogicalFile
+    ctx.count('oracle_cases')
+    case = {'op': 'rlefile', 'lp': [{'name': [ft['name'][0], ft['name'][1], ft['name'][2].hex()],
+                                     'chans': [{'ident': c['ident'].hex(), 'rc': c['rc'], 'dims': c['dims']} for c in ft['chans']]} for ft in lp],
+            'recs': [[e, x, ty, b.hex()] for e, x, ty, b in recs],
+            'want': {str(k): {'x': _hexf(v['x']), 'no': v['no'], 'rc': v['rc']} for k, v in want.items()}}
+    path = os.path.join(ctx.scratch, 'rlefile_%d.dlis' % ctx.stats['oracle_cases'])
+    with open(path, 'wb') as fh:
+        fh.write(c03phys.wrap(recs, None))
+    logging.disable(logging.CRITICAL)
+    try:
+        out = io.StringIO()
+        with LogicalFile.LogicalIndex(path) as li:
+            IndexXML.write_logical_file_sequence_to_xml(li, out, True)
+            lf = li.logical_files[0]
+            mem = {fa.ident.I: ([r.frame_number for r in lf.iflr_position_map[fa.ident]],
+                                [r.logical_record_position.lrsh_position for r in lf.iflr_position_map[fa.ident]],
+                                [float(r.x_axis) for r in lf.iflr_position_map[fa.ident]]) for fa in lf.log_pass.frame_arrays}
+    except Exception as e:
+        ctx.fail(case, f'indexing / writing the XML index of a generated conformant file raised {type(e).__name__}: {e}')
+        return False
+    finally:
+        logging.disable(logging.NOTSET)
+        os.unlink(path)
+    res = xc.parse_both(out.getvalue())
+    if not res['ok']:
+        ctx.fail(case, f'XML index not well-formed: {res["lxml_err"]}'); return False
+    fas = res['lxml_root'].findall('.//FrameArray')
+    if [fa.get('I').encode('ascii') for fa in fas] != [ft['name'][2] for ft in lp if want[lp.index(ft)]['x']]:
+        ctx.fail(case, f'FrameArray entries {[fa.get("I") for fa in fas]} for frame types {[ft["name"][2] for ft in lp]}'); return False
+    for fa in fas:
+        k = [ft['name'][2] for ft in lp].index(fa.get('I').encode('ascii'))
+        w, (mno, mpos, mx) = want[k], mem[fa.get('I').encode('ascii')]
+        iflr = fa.find('IFLR')
+        bad = None
+        try:
+            nos = expand_rle_element(iflr.find('FrameNumbers'))
+            pos = expand_rle_element(iflr.find('LRSH'))
+            if nos != w['no'] or nos != mno:
+                bad = f'FrameNumbers expand to {nos[:8]}.., generated {w["no"][:8]}.., indexed {mno[:8]}..'
+            elif pos != mpos or len(pos) != len(w['x']) or any(b <= a for a, b in zip(pos, pos[1:])):
+                bad = f'LRSH entries expand to {pos[:6]}.., indexed positions {mpos[:6]}.. ({len(w["x"])} frames)'
+            elif int(iflr.get('count')) != len(w['x']):
+                bad = f'IFLR count {iflr.get("count")} for {len(w["x"])} frames'
+            else:
+                bad = check_float_expansion(iflr.find('Xaxis'), w['x'], f32=(w['rc'] == 2))
+                if bad is None and mx != w['x']:
+                    bad = f'in-memory X {mx[:4]} differs from the generated X {w["x"][:4]}'
+                if bad: bad = 'Xaxis ' + bad
+        except (ValueError, AttributeError, TypeError) as e:
+            bad = f'IFLR block unreadable: {type(e).__name__}: {e}'
+        if bad:
+            ctx.fail(case, f'frame type {fa.get("I")}: ' + bad); return False
+    if any(len(v['x']) >= 5 for v in want.values()):
+        ctx.nontriv(('rlefile', json.dumps(case['want'], sort_keys=True)))
+    return True
+
+
+def run_index_files(ctx):
+    from props import c03, c04
+    rng = ctx.rng
+    cases = [gen_index_file(rng) for _ in range(ctx.n(600, 6000))]
+    try:
+        enc = ctx.lean([f'encfile {c04.lp_txt(lp)} {c04.frames_txt(lp, fr)}' for lp, fr, _ in cases], name='C04')
+    except Exception as e:      # the encoder of another property is not available: say so, do not guess
+        ctx.note(f'rlefile stream not run: C04 specification encoder unavailable ({type(e).__name__}: {str(e)[:120]})')
+        return
+    for (lp, frames, want), reply in zip(cases, enc):
+        recs = c03.parse_recs(reply)
+        oracle_index_file(ctx, lp, frames, recs, want)
+    ctx.count('rlefile_cases', len(cases))
+    ctx.sample({'op': 'rlefile', 'frame_types': len(cases[0][0]), 'x': cases[0][2][0]['x'][:6], 'frame_numbers': cases[0][2][0]['no'][:6]})
+
+
 # ------------------------------------------------------------------ entry points
 
 def run(ctx):
@@ -760,6 +1035,8 @@ def run(ctx):
     docs = run_xmlrun(ctx)
     run_xmlwf(ctx, docs)
     run_rle(ctx)
+    run_rle_float(ctx)
+    run_index_files(ctx)
     try:
         from gen import c18_producers
     except ImportError:
@@ -802,6 +1079,14 @@ def replay(ctx, rec):
         oracle_run(ctx, case['kind'], case['ops'], status, text)
     elif op == 'rle':
         oracle_rle(ctx, case['xs'], case['hex'])
+    elif op == 'rlefloat':
+        oracle_rle_float(ctx, [float.fromhex(h) for h in case['xs']], case['f32'])
+    elif op == 'rlefile':
+        lp = [{'name': [ft['name'][0], ft['name'][1], bytes.fromhex(ft['name'][2])],
+               'chans': [{'ident': bytes.fromhex(c['ident']), 'rc': c['rc'], 'dims': c['dims']} for c in ft['chans']]} for ft in case['lp']]
+        recs = [(e, x, ty, bytes.fromhex(b)) for e, x, ty, b in case['recs']]
+        want = {int(k): {'x': [float.fromhex(h) for h in v['x']], 'no': v['no'], 'rc': v['rc']} for k, v in case['want'].items()}
+        oracle_index_file(ctx, lp, None, recs, want)
     elif op == 'xmlwf':
         return True, 'correspondence-only case (specification parser vs lxml); nothing to replay on the implementation'
     else:
